@@ -496,6 +496,9 @@ inline void oracle_C20(An &a, vf::Stats &st) {
     if (rep == 0) { final1 = vm.data; st.add("executed_instructions", n); long long mx = 0; for (int w : vm.data) mx = std::max<long long>(mx, w); st.max("value", mx); if (mx >= (1LL << 30)) st.add("runs_reaching_2^30"); }
     else if (final1 != vm.data) { st.violation(a.key(), "two runs of the same program end with different data", a.cj); return; }
   }
+  { // resuming with execute() must compute the same words as instruction-by-instruction execution
+    Theo::VM vm(a.cr.code); bool halts = false; { Theo::VM probe(a.cr.code); long long n = 0; while (!probe.isDone() && n < 20000) { probe.executeSingle(); n++; } halts = probe.isDone(); }
+    if (halts) { vm.execute(); if (vm.data != final1) { st.violation(a.key(), "execute() ends with different data than executing the same program instruction by instruction", a.cj); return; } } }
   uint64_t h = 0; for (int w : final1) h = vf::mix(h ^ (uint64_t)w); st.outcomes.insert(h);
   st.add("programs_run");
   if (lit_seen) st.sample("{\"source\":" + vf::jmap(a.files) + "}", 2);
